@@ -107,6 +107,10 @@ func c11GenXSD(t *rapid.T) c11XDoc {
 			}
 		}
 		ne := rapid.IntRange(1, 5).Draw(t, "nelems")
+		if ty.Base != "" && rapid.IntRange(0, 2).Draw(t, "noownelems") == 0 {
+			// an extension that adds attributes only (or nothing): everything it has is inherited
+			ne = 0
+		}
 		for _, en := range c12Distinct(t, c11XElemNames, ne, "elemnames") {
 			if inherited[en] {
 				continue
